@@ -353,7 +353,9 @@ def main(argv=None):
     pr = reg["properties"][a.prop]
     units = [u for u in pr["units"] if (a.unit is None or u in a.unit)]
     cfgs = {u: load_json(os.path.join(unit_dir(u), "unit.json")) for u in units}
-    work = os.path.join(ROOT, ".work", a.prop)
+    # a run against a scratch tree (seeded change, self-test) never touches the work dir or the evidence of the real check
+    scratch_tag = "" if os.path.realpath(a.repo) == "/repo" else "-" + re.sub(r"[^A-Za-z0-9_.]", "_", os.path.basename(os.path.normpath(a.repo)))
+    work = os.path.join(ROOT, ".work", a.prop + scratch_tag)
     shutil.rmtree(work, ignore_errors=True)
     os.makedirs(work, exist_ok=True)
     os.makedirs(os.path.join(ROOT, "replays"), exist_ok=True)
@@ -415,6 +417,30 @@ def main(argv=None):
         return True
     obligations = [o for o in obligations if serves(o)]
 
+    # A Verus unit whose overlay no longer fits the text of /repo (function restructured: lost anchor, unsupported construct, type
+    # error) cannot be decided by proof.  Before answering UNDECIDED, run the unit's executable contract (its replay/search harness)
+    # on the real crate: a concrete failing input found there is a violation demonstrated on the real code and is reported as one
+    # (obligation kind `contract-replay`); if none is found the answer stays UNDECIDED (exit 2) - the absence of a failing input
+    # is never counted as a proof.
+    done_rp = {}
+    for o in [o for o in obligations if o["status"] == "undecided" and o.get("kind") == "setup" and o["engine"] == "verus"]:
+        rpc = cfgs[o["unit"]].get("replay")
+        if not rpc:
+            continue
+        key = (tuple(rpc["files"]), rpc.get("default_test"))
+        if key not in done_rp:
+            done_rp[key] = run_replay({"id": o["unit"] + "/contract-replay", "unit": o["unit"]}, cfgs[o["unit"]], a.repo, work, seed)
+        rep = done_rp[key]
+        if rep.get("found"):
+            i = rep["output"].find("REPLAY-FAIL")
+            o["status"], o["kind"] = "failed", "contract-replay: proof not applicable to the changed text; the executable contract fails on the real code"
+            o["failed_kinds"] = ["contract-replay"]
+            o["detail"] = "proof undecided (%s); executable contract on the real crate: %s" % (
+                (o.get("detail") or "").split("\n")[0][:300], rep["output"][i:i + 1200] if i >= 0 else rep["output"][-1200:])
+            o["replay_result"] = rep
+        else:
+            o["contract_replay"] = "ran, no failing input" if rep.get("ran") else "did not run"
+
     known, fixed = load_known()
     failed = [o for o in obligations if o["status"] == "failed"]
     undec = [o for o in obligations if o["status"] == "undecided"]
@@ -455,7 +481,8 @@ def main(argv=None):
 
     wall = time.time() - t0
     if a.unit is None:
-        write_evidence(a.prop, pr, a.tier, seed, obligations, infos, cfgs, wall, len(violations), known_hits, fixed)
+        write_evidence(a.prop, pr, a.tier, seed, obligations, infos, cfgs, wall, len(violations), known_hits, fixed,
+                       out_dir=os.path.join(ROOT, "evidence") if not scratch_tag else work)
     # summary
     nd = len([o for o in obligations if o["status"] == "discharged"])
     nm = len([o for o in obligations if o["status"] == "expected_fail_ok"])
@@ -472,7 +499,7 @@ def main(argv=None):
     return 0
 
 
-def write_evidence(prop, pr, tier, seed, obligations, infos, cfgs, wall, nviol, known_hits, fixed):
+def write_evidence(prop, pr, tier, seed, obligations, infos, cfgs, wall, nviol, known_hits, fixed, out_dir=None):
     real = [o for o in obligations if o["kind"] != "must_fail"]
     disch = [o for o in real if o["status"] == "discharged"]
     bounded = [o for o in real if str(o.get("kind", "")).startswith("bounded")]
@@ -546,7 +573,7 @@ def write_evidence(prop, pr, tier, seed, obligations, infos, cfgs, wall, nviol, 
         "wall_s": round(wall, 2),
         "violations": nviol,
     }
-    with open(os.path.join(ROOT, "evidence", prop + ".json"), "w") as f:
+    with open(os.path.join(out_dir or os.path.join(ROOT, "evidence"), prop + ".json"), "w") as f:
         json.dump(ev, f, indent=1)
 
 
